@@ -114,6 +114,8 @@ static void run_persist(uint64_t idx, pv_rng* rng) {
     uint64_t B = pv_api_get_birthday(s), want = pv_m_birthday_time(k);
     PV_COUNT("evaluations", 1);
     if (B != want) pv_violation("C11/differs-from-model", "month %u: %llu vs %llu", k, (unsigned long long)B, (unsigned long long)want);
+    /* time passes: everything after creation happens months or years later, or while the clock is broken - the birthday stays */
+    { static const uint64_t LATER[] = { 0, UINT64_MAX, PV_EPOCH - 1 }; pv_w->time_value = pv_randn(rng, 3) ? pv_m_birthday_time((k + 1 + pv_randn(rng, 900)) & 1023) + 5 : LATER[pv_randn(rng, 3)]; }
     for (int l = 0; l < pv_nlangs; ++l) {
         if (!pv_langs[l].lib) continue;
         unsigned coin = pv_gen_coin(rng);
@@ -167,7 +169,8 @@ static bool conc_iter(pv_rng* r, int iter, void* user, char* err, size_t errsz) 
     pv_api_store(s, img); d = NULL; st = pv_api_load(img, &d);
     if (st != POLYSEED_OK) { ok = false; snprintf(err, errsz, "t=%llu: own image -> %s", (unsigned long long)t, pv_status_name(st)); }
     else { uint64_t B3 = pv_api_get_birthday(d); if (B3 != want) { ok = false; snprintf(err, errsz, "t=%llu: birthday %llu after store/load, model %llu", (unsigned long long)t, (unsigned long long)B3, (unsigned long long)want); } pv_api_free(d); }
-    pv_api_crypt(s, "pw"); if (pv_api_get_birthday(s) != want) { ok = false; snprintf(err, errsz, "t=%llu: birthday changed by encryption", (unsigned long long)t); }
+    pv_w->time_value = pv_randn(r, 2) ? t + (1 + pv_randn(r, 500)) * PV_STEP : UINT64_MAX;          /* the clock has moved on (or broke) since creation */
+    pv_api_crypt(s, "pw"); if (pv_api_get_birthday(s) != want) { ok = false; snprintf(err, errsz, "t=%llu: birthday changed by encryption at a later time", (unsigned long long)t); }
     free(out); free(img); pv_api_free(s);
     return ok;
 }
